@@ -188,6 +188,82 @@ def gen_filters(repo):
     for k in sorted(set(code) & set(doc)):
         rows.append('  (%s, %s, %s) (* %s *)' % (coq_bytes([ord(c) for c in k]), 'true' if code[k] else 'false', 'true' if doc[k] else 'false', k))
     out += ';\n'.join(rows).replace(' (* ', ' (* ') + '\n].\n'
+    out += gen_real_filters(repo)
+    return out
+
+
+def body_of(src, name, rel):
+    """like trlib.func_body, but tolerant of parentheses inside the parameter list (__attribute__ ((unused)))"""
+    m = re.search(r'^' + re.escape(name) + r'\s*\(', src, flags=re.M)
+    if not m:
+        raise TranslateError('%s: function %s not found' % (rel, name))
+    i = src.index('{', m.end())
+    j, depth = i + 1, 1
+    while depth and j < len(src):
+        depth += {'{': 1, '}': -1}.get(src[j], 0)
+        j += 1
+    return src[m.start():j]
+
+
+def lit(name, text, comment=None):
+    return 'Definition %s : list N := %s. (* "%s" *)\n' % (name, coq_bytes(c_unescape(text)), comment if comment is not None else text)
+
+
+def gen_real_filters(repo):
+    """constants of the four filters that stage 2 runs for real: keys, own replies, enum values"""
+    out = '\n(* ---- qsmtpd/filters/boolean.c, smtpbugs.c, usersize.c, spf.c, include/qsmtpd/antispam.h *)\n'
+    # boolean.c
+    rel = 'qsmtpd/filters/boolean.c'
+    b = func_body(strip_comments(read(repo, rel)), 'cb_boolean', rel)
+    m = one(r'if\s*\(\s*getsettingglobal\s*\(\s*ds\s*,\s*"([^"]*)"\s*,\s*t\s*\)\s*>\s*0\s*\)\s*\{\s*if\s*\(\s*is_authenticated_client\s*\(\s*\)\s*\)\s*return\s+FILTER_WHITELISTED\s*;', b, 'cb_boolean whitelistauth')
+    out += lit('KEY_WHITELISTAUTH', m)
+    m = one(r'if\s*\(\s*!\s*xmitstat\.ssl\s*&&\s*\(\s*getsetting\s*\(\s*ds\s*,\s*"([^"]*)"\s*,\s*t\s*\)\s*>\s*0\s*\)\s*\)\s*\{\s*int\s+rc\s*=\s*netwrite\s*\(\s*"((?:[^"\\]|\\.)*)"\s*\)', b, 'cb_boolean forcestarttls')
+    out += lit('KEY_FORCESTARTTLS', m[0]) + lit('REPLY_FORCESTARTTLS', m[1])
+    m = one(r'if\s*\(\s*!\s*xmitstat\.mailfrom\.len\s*&&\s*\(\s*getsetting\s*\(\s*ds\s*,\s*"([^"]*)"\s*,\s*t\s*\)\s*>\s*0\s*\)\s*\)\s*\{.*?netwrite\s*\(\s*"((?:[^"\\]|\\.)*)"\s*\)', b, 'cb_boolean nobounce', re.S)
+    out += lit('KEY_NOBOUNCE', m[0]) + lit('REPLY_NOBOUNCE', m[1])
+    m = one(r'if\s*\(\s*\(\s*getsetting\s*\(\s*ds\s*,\s*"([^"]*)"\s*,\s*t\s*\)\s*>\s*0\s*\)\s*&&\s*xmitstat\.mailfrom\.len\s*\)', b, 'cb_boolean noapos')
+    out += lit('KEY_NOAPOS', m)
+    if len(re.findall(r'return\s', b)) != 5 or not re.search(r"memchr\s*\(\s*xmitstat\.mailfrom\.s\s*,\s*'\\''", b):
+        raise TranslateError('cb_boolean: unexpected shape (returns / apostrophe test)')
+    # usersize.c
+    rel = 'qsmtpd/filters/usersize.c'
+    u = func_body(strip_comments(read(repo, rel)), 'cb_usersize', rel)
+    out += lit('KEY_USERSIZE', one(r'if\s*\(\s*\(\s*usize\s*=\s*getsetting\s*\(\s*ds\s*,\s*"([^"]*)"\s*,\s*t\s*\)\s*\)\s*<=\s*0\s*\)\s*return\s+FILTER_PASSED', u, 'cb_usersize key'))
+    if not re.search(r'if\s*\(\s*xmitstat\.thisbytes\s*<=\s*\(\s*unsigned\s+long\s*\)\s*usize\s*\)\s*return\s+FILTER_PASSED', u):
+        raise TranslateError('cb_usersize: size comparison not found')
+    out += lit('REPLY_USERSIZE', one(r'netwrite\s*\(\s*"((?:[^"\\]|\\.)*)"\s*\)', u, 'cb_usersize reply'))
+    # smtpbugs.c
+    rel = 'qsmtpd/filters/smtpbugs.c'
+    ssrc = strip_comments(read(repo, rel))
+    spb = enum_values(ssrc, 'spacebug_filter', rel)
+    for k in ['SPB_PERMIT_ALL', 'SPB_PERMIT_ESMTP', 'SPB_PERMIT_TLS', 'SPB_PERMIT_AUTH', 'SPB_REJECT_ALL']:
+        out += 'Definition %s : Z := %s.\n' % (k, zlit(spb[k]))
+    sb = body_of(ssrc, 'cb_smtpbugs', rel)
+    out += lit('KEY_SMTP_SPACE_BUG', one(r'if\s*\(\s*\(\s*filter\s*=\s*getsettingglobal\s*\(\s*ds\s*,\s*"([^"]*)"\s*,\s*t\s*\)\s*\)\s*<=\s*0\s*\)\s*return\s+FILTER_PASSED', sb, 'cb_smtpbugs key'))
+    if not re.search(r'\bint\s+filter\s*;', sb):
+        raise TranslateError('cb_smtpbugs: "int filter" not found (the model truncates the long to int)')
+    order = re.findall(r'case\s+(SPB_\w+)\s*:', sb)
+    if order != ['SPB_PERMIT_TLS', 'SPB_PERMIT_AUTH', 'SPB_PERMIT_ESMTP', 'SPB_REJECT_ALL']:
+        raise TranslateError('cb_smtpbugs: switch cases are %s' % order)
+    out += lit('REPLY_SMTPBUGS', one(r'netwrite\s*\(\s*"((?:[^"\\]|\\.)*)"\s*\)', sb, 'cb_smtpbugs reply'))
+    # spf
+    rel = 'include/qsmtpd/antispam.h'
+    spf = enum_values(strip_comments(read(repo, rel)), 'spf_eval_result', rel)
+    for k in ['SPF_NONE', 'SPF_PASS', 'SPF_NEUTRAL', 'SPF_SOFTFAIL', 'SPF_FAIL', 'SPF_PERMERROR', 'SPF_TEMPERROR', 'SPF_DNS_HARD_ERROR', 'SPF_IGNORE']:
+        out += 'Definition %s : N := %d%%N.\n' % (k, spf[k])
+    if not re.search(r'#define\s+SPF_IS_FAILURE\(x\)\s+\(\(\(x\)\s*==\s*SPF_FAIL\)\s*\|\|\s*\(\(x\)\s*==\s*SPF_PERMERROR\)\)', read(repo, rel)):
+        raise TranslateError('SPF_IS_FAILURE: unexpected definition')
+    rel = 'qsmtpd/filters/spf.c'
+    sp = func_body(strip_comments(read(repo, rel)), 'cb_spf', rel)
+    out += lit('KEY_SPFPOLICY', one(r'p\s*=\s*getsettingglobal\s*\(\s*ds\s*,\s*"([^"]*)"\s*,\s*t\s*\)\s*;', sp, 'cb_spf policy key'))
+    cases = re.findall(r'\n\s*(default|case\s+\d+)\s*:', sp[sp.index('switch (p)'):sp.index('if (do_strict)')])
+    if cases != ['default', 'case 6', 'case 5', 'case 4', 'case 3', 'case 2', 'case 1']:
+        raise TranslateError('cb_spf: switch (p) cases are %s' % cases)
+    out += lit('REPLY_SPF_DENY', one(r'netmsg\[\]\s*=\s*\{\s*"((?:[^"\\]|\\.)*)"', sp, 'cb_spf deny message'))
+    out += lit('REPLY_SPF_BAD', one(r'logmsg\s*=\s*"bad SPF"\s*;\s*if\s*\(\s*netwrite\s*\(\s*"((?:[^"\\]|\\.)*)"\s*\)', sp, 'cb_spf bad SPF reply'))
+    m = one(r'else\s+if\s*\(\s*\(\s*r\s*==\s*FILTER_DENIED_TEMPORARY\s*\)\s*&&\s*\(\s*getsetting\s*\(\s*ds\s*,\s*"([^"]*)"\s*,\s*&tmpt\s*\)\s*<=\s*0\s*\)\s*\)\s*\{.*?netwrite\s*\(\s*"((?:[^"\\]|\\.)*)"\s*\)\s*!=\s*0\s*\)\s*return\s+FILTER_ERROR\s*;\s*return\s+(FILTER_\w+)\s*;', sp, 'cb_spf temporary branch', re.S)
+    out += lit('KEY_SPF_FAIL_HARD', m[0]) + lit('REPLY_SPF_TEMP', m[1])
+    out += '(* what cb_spf returns after it has sent REPLY_SPF_TEMP itself *)\nDefinition SPF_TEMP_RETURNS : Z := %s.\n' % m[2].replace('FILTER_', 'FR_')
     return out
 
 
